@@ -334,7 +334,10 @@ func genC19(rng *rand.Rand, n int, thorough bool, emit func(string)) {
 				}
 				return pick(rng, "a", "b", "c", "d", "e", "x\ny", "p\r\nq\rr")
 			}
-			switch rng.Intn(14) {
+			switch rng.Intn(15) {
+			case 14:
+				wire := pick(rng, "data: new\n\n", "id: 9\ndata: a\ndata: b\n\n", ": c\nevent: t\n\n", "retry: 7\n\n", "data: x", "\n", "data: 1\ndata: 2\ndata: 3\ndata: 4\n\n")
+				ops = append(ops, fmt.Sprintf("U%d:%s", m, hxs(wire)))
 			case 0, 1, 2, 3, 4:
 				ops = append(ops, fmt.Sprintf("D%d:%s", m, hxStrs(rng, short, 3)))
 			case 5:
